@@ -20,6 +20,7 @@ import Scico.Proofs.LinOps11
 import Scico.Proofs.LinOps12
 import Scico.Proofs.LinOps13
 import Scico.Proofs.LinOps14
+import Scico.Proofs.LinOps15
 import Mathlib.Data.Complex.Basic
 import Mathlib.Tactic.NormNum
 
@@ -896,5 +897,28 @@ theorem C04_dft_nd_inv_padded_fails :
 
 example : FitsPad [2, 3] [4, 3] := by simp [FitsPad]
 example : embedIdx [2, 3] [4, 5] 4 = 6 := by decide
+
+
+/-! ### Abel transform: the quadrant assembly -/
+
+/-- `AbelTransform._eval` = `_pyabel_transform(x, "forward", P)`: extracting the four quadrants (flipped to the
+    orientation of the upper right one), multiplying each by the single-quadrant matrix `P` (`Q.dot(P)`; `P` itself —
+    PyAbel's Daun basis projection — is a contract), trimming the duplicated centre row / column of odd sizes and
+    reassembling, is `I_n ⊗ T`: every image row is transformed on its own by `T = abelRowMatrix P m mc` (`P` on the right
+    half, mirrored on the left half).  Every `n`, `m ≥ 1`, every `P`; the same holds for `"transpose"` (`P.T`) and for any
+    other matrix in place of `P`. -/
+theorem C04_abel_rows (P : M K) (n m nc mc : Nat) (hm0 : 0 < m) (hmc : mc ≤ m) (x : V K) (p : Nat) (hp : p < n * m) :
+    abelEval P n m nc mc x p = mulVec (kronAxis m m 1 (abelRowMatrix P m mc)) (n * m * 1) x p :=
+  abelEval_kron P n m nc mc hm0 hmc x p hp
+
+/-- "the input image is assumed to be centered and left-right symmetric": for an even number of columns the row
+    matrix commutes with the left-right flip, so a symmetric image has a symmetric transform. -/
+theorem C04_abel_mirror (P : M K) (mc c c' : Nat) (hc : c < 2 * mc) (hc' : c' < 2 * mc) :
+    abelRowMatrix P (2 * mc) mc (2 * mc - 1 - c) (2 * mc - 1 - c') = abelRowMatrix P (2 * mc) mc c c' :=
+  abelRowMatrix_mirror P mc c c' hc hc'
+
+-- a 1×3 image (odd width, mc = 2) with P = [[1,2],[0,3]]: the centre column is taken from the right half
+example : (List.range 3).map (abelEval (α := Int) (fun i j => [[1, 2], [0, 3]].getD i [] |>.getD j 0) 1 3 1 2
+    (fun j => [5, 7, 11].getD j 0)) = [29, 7, 47] := by decide
 
 end Scico.Props.C04
